@@ -118,6 +118,51 @@ func c57Scenario(name string, removers int, clear string, adds int, bound int) v
 	}}
 }
 
+// c57ReAddScenario: entry "k" (callback cbOld) is removed while its timer may
+// already have fired, and the same key is added again (callback cbNew). The old
+// entry's callback must never run once Remove returned it, and the new entry
+// must expire exactly once on its own schedule.
+func c57ReAddScenario(bound int) vsched.Scenario {
+	return vsched.Scenario{Name: "remove+readd+expiry", Bound: bound, MinOutcomes: 2, Body: func(x *vsched.X) {
+		c := NewTimeoutCache(c57Timeout)
+		var oldCb, newCb atomic.Int32
+		var removedOK, readded atomic.Bool
+		c.Add("k", "old", func() { oldCb.Add(1) })
+		x.Go("remove+readd", func() {
+			if _, ok := c.Remove("k"); ok {
+				removedOK.Store(true)
+			}
+			if _, ok := c.Add("k", "new", func() { newCb.Add(1) }); ok {
+				readded.Store(true)
+			}
+		})
+		x.Go("clock", func() { vsched.Advance(c57Timeout) })
+		x.Final(func(x *vsched.X) {
+			if x.Stuck != "" {
+				x.Fail("C57", "deadlock", "execution stuck: %s", x.Stuck)
+			}
+			for _, p := range x.Panics {
+				x.Fail("C57", "panic", "%s", p)
+			}
+			time.Sleep(3 * c57Timeout) // every live timer has fired by now
+			o, n := oldCb.Load(), newCb.Load()
+			x.Outcome(fmt.Sprintf("old=%d new=%d removed=%v readded=%v", o, n, removedOK.Load(), readded.Load()))
+			if removedOK.Load() && o != 0 {
+				x.Fail("C57", "callback-after-remove", "Remove returned the old entry but its expiry callback ran %d time(s)", o)
+			}
+			if !removedOK.Load() && o != 1 {
+				x.Fail("C57", "entry-lost-or-duplicated", "old entry was not returned by Remove, so it expired: its callback must have run once, ran %d", o)
+			}
+			if readded.Load() && n != 1 {
+				x.Fail("C57", "readded-entry-callback-count", "the re-added entry's expiry callback ran %d times after its timeout (want exactly 1)", n)
+			}
+			if c.Len() != 0 {
+				x.Fail("C57", "entry-remains", "entry still cached after every timeout passed")
+			}
+		})
+	}}
+}
+
 func TestVerif_C57_TimeoutCache(t *testing.T) {
 	const P = "C57"
 	r := vk.Start(t, "c57_timeoutcache", "exploration", P)
@@ -131,6 +176,7 @@ func TestVerif_C57_TimeoutCache(t *testing.T) {
 		c57Scenario("clearcb+remove1+expiry", 1, "cb", 0, b),
 		c57Scenario("clearnocb+expiry", 0, "nocb", 0, b),
 		c57Scenario("add2+expiry", 0, "", 2, b),
+		c57ReAddScenario(b),
 	}
 	vsched.RunScenarios(t, r, []string{P}, scs)
 	r.Sample(P, map[string]any{"scenario": "remove1+expiry", "threads": []string{"remove0: Remove(k)", "clock: Advance(5s) fires the entry's real timer; its callback goroutine is adopted and parks before c.mu.Lock"}})
